@@ -73,6 +73,17 @@ var nameDictionary = []string{
 	"séq", "Ωmega", "中文名", "ж1",
 }
 
+var nonASCIIRunes = []rune("éñüßøÅΩλжЯ中日語한𝛼😀")
+
+func hasNonASCII(rows []gen.Row) bool {
+	for _, r := range rows {
+		if len(r.Name) != utf8.RuneCountInString(r.Name) {
+			return true
+		}
+	}
+	return false
+}
+
 const printableChars = "!\"#$%&'()*+,-./0123456789:;<=?@ABCDEFGHIJKLMNOPQRSTUVWXYZ[\\]^_`abcdefghijklmnopqrstuvwxyz{|}~"
 
 func isDictionaryName(n string) bool {
@@ -105,7 +116,29 @@ func chainRows(t *rapid.T, aa bool, n, l int, d nameDom) []gen.Row {
 	rows := make([]gen.Row, n)
 	for i := range rows {
 		var name string
-		switch rapid.IntRange(0, 6).Draw(t, "namekind") {
+		switch rapid.IntRange(0, 7).Draw(t, "namekind") {
+		case 7:
+			// multi-byte UTF-8: 1-6 characters, each an ASCII letter/digit or a non-ASCII letter
+			// (2, 3 and 4 byte encodings); goalign counts the strict Phylip name column in characters
+			k := rapid.IntRange(1, 6).Draw(t, "nrunes")
+			r := make([]rune, k)
+			multi := false
+			for j := range r {
+				if rapid.IntRange(0, 2).Draw(t, "ascii") == 0 {
+					r[j] = rune("abcXYZ019_"[rapid.IntRange(0, 9).Draw(t, "c")])
+				} else {
+					r[j] = nonASCIIRunes[rapid.IntRange(0, len(nonASCIIRunes)-1).Draw(t, "c")]
+					multi = true
+				}
+			}
+			if !multi {
+				r[0] = 'ü'
+			}
+			name = string(r)
+			for d.Strict && len(name) > 10 {
+				_, sz := utf8.DecodeLastRuneInString(name)
+				name = name[:len(name)-sz]
+			}
 		case 0, 1:
 			name = "s" + strconv.Itoa(i)
 		case 2, 3, 4:
